@@ -492,7 +492,7 @@ func c08Trace(work, line string, lineNo int, r *rng, every int) {
 		akf              int
 		etc0, etag, trag float64
 	}
-	harvests, fallowHarvests := 0, 0
+	harvests, fallowHarvests, negEtnullDays := 0, 0, 0
 	lastHarvestZeit := -1
 	maxBookedShare := 0.0
 	// hypotheses of the theorems (Prop_C08.evatra_wf) observed on the real states
@@ -511,6 +511,10 @@ func c08Trace(work, line string, lineNo int, r *rng, every int) {
 			pre.ok = false
 			hypBad += c08Hypotheses(fmt.Sprintf("trace line=%d zeit=%d meth=%d", lineNo, zeit, g.ETMETH), &pre.g, g, cropBranch(&pre.g, zeit))
 			em := every <= 1 || r.intn(every) == 0
+			if pre.g.ETMETH == 5 && pre.g.ETNULL[pre.g.TAG.Index] < 0 { // a negative reference ET reaches the floor: always in the tie
+				negEtnullDays++
+				em = true
+			}
 			res := evatraCase("trace", &pre.g, &pre.l, zeit, em, jobj{"line": lineNo})
 			where := fmt.Sprintf("trace line=%d zeit=%d meth=%d", lineNo, zeit, g.ETMETH)
 			if !res.ok {
@@ -610,7 +614,7 @@ func c08Trace(work, line string, lineNo int, r *rng, every int) {
 	hermes.VerifProbe = nil
 	emit(jobj{"k": "c08run", "line": lineNo, "success": rr.Success, "err": rr.Err, "days": days, "replayed": replayed,
 		"emitted": emitted, "crop_days": cropDays, "skipped": skipped,
-		"harvests": harvests, "harvests_after_a_fallow": fallowHarvests, "hyp_violations": hypBad, "max_wurz_20_layer_profiles": maxWurz20,
+		"negative_reference_et_days": negEtnullDays, "harvests": harvests, "harvests_after_a_fallow": fallowHarvests, "hyp_violations": hypBad, "max_wurz_20_layer_profiles": maxWurz20,
 		"day_checked": dayChecked, "multi_step_days": multiStepDays, "rain_overflow_days": overflowDays,
 		"rain_overflow_fractional_zsr_days": fracDays, "rain_overflow_zsr_fraction_ge_half_days": fracHighDays,
 		"max_booked_share_of_pet": finiteOrNil(maxBookedShare),
@@ -705,6 +709,7 @@ func c08(args []string) {
 	work := fs.String("work", "", "scratch copy of the examples tree (traced runs)")
 	linesFile := fs.String("lines", "", "file with batch lines (traced runs)")
 	every := fs.Int("every", 10, "emit about one traced day in this many as a correspondence case")
+	firstLine := fs.Int("first-line", 0, "number of the first batch line (ORACLE keys)")
 	edge := fs.String("edge", "", "lukrit0: every case with LUKRIT = 0 and the top soil above its pore volume (F27); wudichneg: investigation only, outside the theorems' hypotheses")
 	fs.Parse(args)
 	defer stdout.Flush()
@@ -726,7 +731,7 @@ func c08(args []string) {
 		panic(err)
 	}
 	sc := bufio.NewScanner(f)
-	lineNo := 0
+	lineNo := *firstLine
 	for sc.Scan() {
 		line := sc.Text()
 		if len(line) == 0 {
